@@ -163,9 +163,38 @@ func runUpstreamFamily(s *Sim, prop string) {
 			s.Harvest()
 		}
 	}
-	if !y.PumpUntil(func() bool { return !s.AnyBusy() }, 100*time.Millisecond, 30*time.Second) {
-		s.Violate(prop+".op-stuck", "settle", "write/flush still blocked 30s after the last operation on a healthy connection: %s", busyOps(s))
-		return
+	// writes and flushes do not need acks to return: in half of the runs the acks that are still
+	// withheld stay withheld until Close is in progress (Close must then wait for them, in
+	// whatever order they come)
+	keepAcksPending := prop == "C01" && t.Bool("acks-pending-at-close", 1, 2)
+	if keepAcksPending {
+		for i := 0; i < 300 && s.AnyBusy(); i++ {
+			y.flushLinks()
+			for _, p := range append([]*pend(nil), s.Broker.Pend...) {
+				if p.Kind != "ack" {
+					s.Broker.Release(p, nil)
+				}
+			}
+			y.flushLinks()
+			if s.AnyBusy() {
+				s.Advance(100 * time.Millisecond)
+			}
+		}
+		// optionally acknowledge only the newest chunks first (out of order across Close)
+		if n := len(s.Broker.Pend); n > 0 && t.Bool("ack-newest-first", 1, 2) {
+			k := 1 + t.Choose("ack-newest-k", n)
+			for i := 0; i < k && len(s.Broker.Pend) > 0; i++ {
+				s.Broker.Release(s.Broker.Pend[len(s.Broker.Pend)-1], nil)
+			}
+			y.flushLinks()
+			s.Stat("env.newest-acked-before-close")
+		}
+	}
+	if s.AnyBusy() || !keepAcksPending {
+		if !y.PumpUntil(func() bool { return !s.AnyBusy() }, 100*time.Millisecond, 30*time.Second) {
+			s.Violate(prop+".op-stuck", "settle", "write/flush still blocked 30s after the last operation on a healthy connection: %s", busyOps(s))
+			return
+		}
 	}
 	// final explicit flush barrier for C20 (no concurrent writers now)
 	if prop == "C20" {
@@ -215,7 +244,10 @@ func runUpstreamFamily(s *Sim, prop string) {
 			}
 		}
 		// what the application can observe the moment Close has returned
-		closeSeen := &closeView{allAcked: y.allAckedAndDelivered(h), after: append([]hookAfterRec(nil), h.After...), before: len(h.Before)}
+		closeSeen := &closeView{allAcked: y.allAckedAndDelivered(h), after: append([]hookAfterRec(nil), h.After...), before: len(h.Before), elapsed: op.ReturnT - op.InvokeT}
+		for _, r := range h.Before {
+			closeSeen.cutSeqs = append(closeSeen.cutSeqs, r.Seq)
+		}
 		op.Meta = closeSeen
 	}
 	y.Pump()
@@ -242,6 +274,8 @@ type closeView struct {
 	allAcked bool
 	after    []hookAfterRec
 	before   int
+	elapsed  time.Duration // simulated time Close took
+	cutSeqs  []uint32      // sequence numbers announced to the send hook when Close returned
 }
 
 type flushBarrier struct {
